@@ -492,6 +492,214 @@ theorem take_of_prefix {α} {l1 l2 : List α} (h : l1 <+: l2) (m : Nat) (hm : m 
   obtain ⟨t, rfl⟩ := h
   rw [List.take_append_of_le_length hm]
 
+/-! ## what a codec swap finds: the bytes not yet consumed -/
+
+/-- the bytes not yet consumed: what is buffered followed by what the transport still delivers -/
+def unconsumed (s : RState) : Bytes := s.buf ++ streamOf s.script
+
+/-- what is left of `b` after the codec took `m` frames / decode errors out of it -/
+def leftover {F} (c : Codec F) : Nat → Bytes → Bytes
+  | 0, b => b
+  | m + 1, b =>
+    match c.decode b with
+    | .need => b
+    | .frame _ r => leftover c m r
+    | .err _ r => leftover c m r
+
+/-- 1 for an output that consumed input through `decode` (an item or a decode error) -/
+def Out.takes {F} : Out F → Nat
+  | .item _ => 1
+  | .decErr _ => 1
+  | _ => 0
+
+/-- number of items / decode errors among the outputs -/
+def takenBy {F} : List (Out F) → Nat
+  | [] => 0
+  | o :: os => o.takes + takenBy os
+
+theorem leftover_need {F} (c : Codec F) (b : Bytes) (h : c.decode b = .need) : ∀ m, leftover c m b = b := by
+  intro m; cases m with
+  | zero => rfl
+  | succ m => simp [leftover, h]
+
+theorem leftover_add {F} (c : Codec F) : ∀ (a k : Nat) (x : Bytes),
+    leftover c (a + k) x = leftover c k (leftover c a x) := by
+  intro a
+  induction a with
+  | zero => intro k x; simp [leftover]
+  | succ a ih =>
+    intro k x
+    rw [Nat.succ_add]
+    cases hd : c.decode x with
+    | need => simp only [leftover, hd]; exact (leftover_need c x hd k).symm
+    | frame f r => simp only [leftover, hd]; exact ih k r
+    | err e r => simp only [leftover, hd]; exact ih k r
+
+theorem leftover_one_frame {F} (c : Codec F) (hs : Stable c) (b e : Bytes) (f : F) (r : Bytes)
+    (hd : c.decode b = .frame f r) : leftover c 1 (b ++ e) = r ++ e := by
+  simp [leftover, hs.frame_ext b f r e hd]
+
+theorem leftover_one_err {F} (c : Codec F) (hs : Stable c) (b e : Bytes) (k : ErrorKind) (r : Bytes)
+    (hd : c.decode b = .err k r) : leftover c 1 (b ++ e) = r ++ e := by
+  simp [leftover, hs.err_ext b k r e hd]
+
+/-- the EOF flag is sticky -/
+theorem readThen_eof_sticky {F} (c : Codec F) (fuel : Nat)
+    (ih : ∀ s, s.eof = true → (nextItem c fuel s).2.eof = true)
+    (s1 : RState) (h : s1.eof = true) : (readThen c fuel s1).2.eof = true := by
+  unfold readThen readPhase
+  cases hsc : s1.script with
+  | nil => exact ih _ (by simp [h])
+  | cons ev t =>
+    cases ev with
+    | eof => exact ih _ (by simp [h])
+    | pending => simpa using h
+    | ioErr e => simpa using h
+    | data bs => exact ih _ (by simp [h])
+
+theorem nextItem_eof_sticky {F} (c : Codec F) : ∀ (fuel : Nat) (s : RState), s.eof = true →
+    (nextItem c fuel s).2.eof = true := by
+  intro fuel
+  induction fuel with
+  | zero => intro s h; exact h
+  | succ fuel ih =>
+    intro s h
+    rw [nextItem_succ]
+    cases hr : s.readable with
+    | false =>
+      simp only [decodePhase, hr, Bool.false_eq_true, if_false]
+      exact readThen_eof_sticky c fuel ih s h
+    | true =>
+      simp only [decodePhase, hr, h, if_true]
+      cases hd : c.decodeEof s.buf <;> rfl
+
+/-- the read half of one loop iteration: the unconsumed bytes change only by what the rest of the loop takes -/
+theorem readThen_rem {F} (c : Codec F) (fuel : Nat)
+    (ih : ∀ s, (nextItem c fuel s).2.eof = false →
+      unconsumed (nextItem c fuel s).2 = leftover c (nextItem c fuel s).1.takes (unconsumed s))
+    (s1 : RState) (h : (readThen c fuel s1).2.eof = false) :
+    unconsumed (readThen c fuel s1).2 = leftover c (readThen c fuel s1).1.takes (unconsumed s1) := by
+  have hroom := readRoom_ge s1.room
+  have hlw := lw_pos
+  -- a state with the EOF flag cannot lead to a result without it
+  have noEof : ∀ (s2 : RState), s2.eof = true → (nextItem c fuel s2).2.eof = false → False := by
+    intro s2 he hf
+    rw [nextItem_eof_sticky c fuel s2 he] at hf; cases hf
+  unfold readThen at h ⊢
+  cases hsc : s1.script with
+  | nil =>
+    simp only [readPhase, hsc, readEof_zero, Bool.or_true] at h ⊢
+    exact (noEof _ rfl h).elim
+  | cons ev t =>
+    cases ev with
+    | eof =>
+      simp only [readPhase, hsc, readEof_zero, Bool.or_true] at h ⊢
+      exact (noEof _ rfl h).elim
+    | pending =>
+      simp only [readPhase, hsc] at h ⊢
+      simp [unconsumed, Out.takes, leftover, hsc, streamOf]
+    | ioErr e =>
+      simp only [readPhase, hsc] at h ⊢
+      simp [unconsumed, Out.takes, leftover, hsc, streamOf]
+    | data bs =>
+      by_cases hbs : bs = []
+      · subst hbs
+        simp only [readPhase, hsc, List.length_nil, Nat.zero_min, readEof_zero, Bool.or_true,
+          Nat.lt_irrefl, if_false, List.take_nil, List.append_nil] at h ⊢
+        exact (noEof _ rfl h).elim
+      · have hlen : 0 < bs.length := List.length_pos_iff.mpr hbs
+        have hcnt : 0 < min bs.length (readRoom s1.room) := by omega
+        have hne : bs.isEmpty = false := by cases bs <;> simp_all
+        simp only [readPhase, hsc, readEof_pos _ hcnt, Bool.or_false] at h ⊢
+        generalize hc : min bs.length (readRoom s1.room) = cnt at hcnt h ⊢
+        have hcle : cnt ≤ bs.length := by omega
+        have key : ∀ (s2 : RState), s2.buf = s1.buf ++ bs.take cnt →
+            s2.script = (if cnt < bs.length then Rd.data (bs.drop cnt) :: t else t) →
+            (nextItem c fuel s2).2.eof = false →
+            unconsumed (nextItem c fuel s2).2 =
+              leftover c (nextItem c fuel s2).1.takes (s1.buf ++ streamOf (Rd.data bs :: t)) := by
+          intro s2 hb hscr hf
+          rw [ih s2 hf]
+          congr 1
+          simp only [unconsumed, hb, hscr]
+          by_cases hlt : cnt < bs.length
+          · have hdne : (bs.drop cnt).isEmpty = false := by
+              rw [List.isEmpty_eq_false_iff]; intro h
+              have := congrArg List.length h; simp at this; omega
+            simp only [hlt, if_true, streamOf, hdne, hne, Bool.false_eq_true, if_false]
+            rw [List.append_assoc, ← List.append_assoc (bs.take cnt), List.take_append_drop]
+          · have hfull : bs.take cnt = bs := List.take_of_length_le (by omega)
+            simp only [hlt, if_false, streamOf, hne, Bool.false_eq_true, hfull]
+            simp
+        have := key _ rfl rfl h
+        simpa [unconsumed, hsc] using this
+
+/-- **one poll and the unconsumed bytes**: as long as the end of file has not been seen, what is
+buffered plus what is still to arrive is exactly what the codec leaves of it after the frame (or
+decode error) the poll returned — however the bytes arrive -/
+theorem nextItem_rem {F} (c : Codec F) (hs : Stable c) : ∀ (fuel : Nat) (s : RState),
+    (nextItem c fuel s).2.eof = false →
+    unconsumed (nextItem c fuel s).2 = leftover c (nextItem c fuel s).1.takes (unconsumed s) := by
+  intro fuel
+  induction fuel with
+  | zero => intro s _; simp [nextItem, Out.takes, leftover]
+  | succ fuel ih =>
+    intro s h
+    rw [nextItem_succ] at h ⊢
+    cases hr : s.readable with
+    | false =>
+      simp only [decodePhase, hr, Bool.false_eq_true, if_false] at h ⊢
+      exact readThen_rem c fuel ih s h
+    | true =>
+      cases he : s.eof with
+      | true =>
+        simp only [decodePhase, hr, he, if_true] at h ⊢
+        cases hd : c.decodeEof s.buf <;> simp [hd] at h
+      | false =>
+        simp only [decodePhase, hr, he, if_true, Bool.false_eq_true, if_false] at h ⊢
+        cases hd : c.decode s.buf with
+        | need =>
+          simp only [hd] at h ⊢
+          have := readThen_rem c fuel ih _ h
+          simpa [unconsumed] using this
+        | frame f r =>
+          simp only [hd] at h ⊢
+          simp only [unconsumed, Out.takes]
+          exact (leftover_one_frame c hs s.buf _ f r hd).symm
+        | err x r =>
+          simp only [hd] at h ⊢
+          simp only [unconsumed, Out.takes]
+          exact (leftover_one_err c hs s.buf _ x r hd).symm
+
+theorem pollN_eof_sticky {F} (c : Codec F) : ∀ (n : Nat) (s : RState), s.eof = true →
+    (pollN c n s).2.eof = true := by
+  intro n
+  induction n with
+  | zero => intro s h; exact h
+  | succ n ih =>
+    intro s h
+    rw [pollN_succ]
+    exact ih _ (nextItem_eof_sticky c _ s h)
+
+/-- **n polls and the unconsumed bytes** -/
+theorem pollN_rem {F} (c : Codec F) (hs : Stable c) : ∀ (n : Nat) (s : RState),
+    (pollN c n s).2.eof = false →
+    unconsumed (pollN c n s).2 = leftover c (takenBy (pollN c n s).1) (unconsumed s) := by
+  intro n
+  induction n with
+  | zero => intro s _; simp [pollN, takenBy, leftover]
+  | succ n ih =>
+    intro s h
+    rw [pollN_succ] at h ⊢
+    simp only at h ⊢
+    have h1 : (pollNext c s).2.eof = false := by
+      cases he : (pollNext c s).2.eof with
+      | false => rfl
+      | true => rw [pollN_eof_sticky c n _ he] at h; cases h
+    rw [ih _ h, takenBy, leftover_add]
+    congr 1
+    exact nextItem_rem c hs _ s h1
+
 /-! ## the three codecs -/
 
 theorem linesCodec_decode_frame (b : Bytes) (f r : Bytes) :
